@@ -22,7 +22,7 @@ RULE = ("Hypothesis-generated solver configurations: molecule (H2 sto-3g/6-31g, 
         "cyclic patterns with exact zeros / multiples of pi/4 / values beyond 2pi) x optional reference override (occupation "
         "vector or circuit), projective circuit, penalty terms, 1-2 deflation circuits with drawn coefficient. Oracle = "
         "dense reference simulation of the assembled gate list and dense Pauli matrices of solver.qubit_hamiltonian; "
-        "N/Sz/S^2 built from their definitions. Part history: on ONE built solver a generated sequence of steps (energy_estimation at parameters from a small pool incl. the same array object, replacing qubit_hamiltonian, appending/removing deflation circuits, changing deflation_coeff, setting/clearing projective_circuit, operator_expectation in between); after every evaluation the value must equal the oracle of the solver's current configuration. Non-trivial = parameter vector has a non-zero entry and the prepared "
+        "N/Sz/S^2 built from their definitions. Part history: on ONE built solver a generated sequence of steps (energy_estimation at parameters from a small pool incl. the same array object, replacing qubit_hamiltonian, appending/removing deflation circuits, changing deflation_coeff, setting/clearing projective_circuit, operator_expectation in between); after every evaluation the value must equal the oracle of the solver's current configuration. Independent Hamiltonian clause (parts mol_energy, penalty): the matrix of solver.qubit_hamiltonian must equal the molecular Hamiltonian plus the documented penalty sum_k mu_k (O_k - v_k)^2 assembled by the check (Fock-space matrices under JW, own N/Sz/S^2 definitions mapped with complete arguments otherwise), energy_estimation must be its expectation; part penalty makes Sz / S^2 penalties with up_then_down=True (explicit or forced by QCC/ILC under JW) frequent and calls build() again 0-2 times on the same solver (after changing backend_options / initial_var_params) with the same oracle. Non-trivial = parameter vector has a non-zero entry and the prepared "
         "state is not a computational basis state. Distinct = distinct canonical JSON of the case.")
 ASSUMPTIONS = ["numpy/scipy dense linear algebra", "reference gate table and Pauli matrices in vlib/refsim.py, Fock-space ladder matrices in vlib/refops.py (self-tested)",
                "PySCF SCF supplies the molecular orbitals; the identities checked hold for any orbital set, so SCF quality is not trusted",
@@ -222,6 +222,69 @@ def check_energy(solver, theta, what):
     return complex(e).real, psi, n
 
 
+def effective_utd(case):
+    """QCC / ILC under Jordan-Wigner are documented (RuntimeWarning) to switch to the all-spin-up-first ordering."""
+    return bool(case["utd"]) or (case["ansatz"] in ("QCC", "ILC") and case["mapping"].lower() == "jw")
+
+
+def given_hamiltonian_matrix(mol, case):
+    """Dense matrix of the Hamiltonian the solver was GIVEN, assembled here and not read from the solver: the molecular
+    Hamiltonian under the case's encoding / ordering plus the documented penalty sum_k mu_k (O_k - v_k)^2, with O_k = N,
+    Sz, S^2 from their definitions.  Under Jordan-Wigner (<= 6 qubits) everything comes from Fock-space matrices, for the
+    other encodings from fermion_to_qubit_mapping with complete arguments (encoding faithfulness: C03; N, Sz, S^2 conserve
+    the scBK symmetries, so encoding a product equals the product of the encodings)."""
+    from tangelo.toolboxes.operators import FermionOperator
+    from tangelo.toolboxes.qubit_mappings.mapping_transform import fermion_to_qubit_mapping
+    n_sos, utd, mapping = mol.n_active_sos, effective_utd(case), case["mapping"]
+    nq = n_qubits_for(mapping, n_sos)
+    direct = mapping.upper() == "JW" and nq <= 6
+    kw = dict(n_spinorbitals=n_sos, n_electrons=mol.n_active_electrons, up_then_down=utd, spin=mol.active_spin)
+    hf_terms = mol.fermionic_hamiltonian.terms
+    if direct:
+        perm = O.up_then_down_perm(n_sos) if utd else list(range(n_sos))
+        M = O.fermion_matrix(O.relabel_terms(hf_terms, perm), nq)
+    else:
+        M = R.qop_matrix(fermion_to_qubit_mapping(mol.fermionic_hamiltonian, mapping, **kw).terms, nq)
+    for which, (mu, val) in (case.get("penalty") or {}).items():
+        if not mu > 0:
+            continue          # documented: a penalty is added only for a positive prefactor
+        if direct:
+            Mo = {"N": O.number_op, "Sz": O.sz_op, "S^2": O.s2_op}[which]
+            Mo = (Mo(nq) if which == "N" else Mo(nq, utd)).toarray()
+        else:
+            fop = FermionOperator()
+            for t, c in H.sym_fermion_terms(which, n_sos // 2).items():
+                fop += FermionOperator(t, c)
+            Mo = R.qop_matrix(fermion_to_qubit_mapping(fop, mapping, **kw).terms, nq)
+        D = Mo - val * np.eye(2 ** nq)
+        M = M + mu * (D @ D)
+    return M, nq, direct
+
+
+def check_given_hamiltonian(mol, solver, case, what, theta=None):
+    """solver.qubit_hamiltonian is the Hamiltonian the solver was given; energy_estimation(theta) is its expectation."""
+    M, nq, direct = given_hamiltonian_matrix(mol, case)
+    terms = solver.qubit_hamiltonian.terms
+    if H.op_n_qubits(terms) > nq:
+        raise Fail(f"{what}: solver.qubit_hamiltonian addresses {H.op_n_qubits(terms)} qubits, encoding has {nq}", sig=f"{what}:hamiltonian-width")
+    Ms = R.qop_matrix(terms, nq)
+    scale = max(1.0, float(np.max(np.abs(M))))
+    dev = float(np.max(np.abs(Ms - M)))
+    if dev > 1e-8 * scale:
+        raise Fail(f"{what}: solver.qubit_hamiltonian deviates by {dev} from molecular Hamiltonian + documented penalty "
+                   f"{case.get('penalty')} [mapping {case['mapping']}, up_then_down {effective_utd(case)}]",
+                   sig=f"{what}:hamiltonian-vs-given" + (":penalty" if case.get("penalty") else ""))
+    if theta is not None:
+        e = solver.energy_estimation(np.array(theta, dtype=float) if len(theta) else [])
+        psi, n = solver_state(solver)
+        if n == nq:
+            ref = complex(np.vdot(psi, M @ psi))
+            if abs(complex(e) - ref) > 1e-8 * scale:
+                raise Fail(f"{what}: energy_estimation = {e!r}, <psi| H_mol + penalty |psi> = {ref!r} (penalty {case.get('penalty')})",
+                           sig=f"{what}:energy-vs-given-hamiltonian")
+    return direct
+
+
 def case_labels(case, theta, psi):
     m = case["mol"]
     out = {f"ansatz={case['ansatz']}", f"mapping={case['mapping'].upper()}", f"utd={case['utd']}",
@@ -295,8 +358,12 @@ def mol_energy(ctx):
                            sig="mol:ref-override-not-prepared")
         if dict(solver.qubit_hamiltonian.terms) != hterms_before:
             raise Fail("energy_estimation changed solver.qubit_hamiltonian", sig="mol:hamiltonian-changed")
+        labels = case_labels(case, theta, psi) | {f"qubits={n}"}
+        if case["ansatz"] != "pUCCD" and n_qubits_for(case["mapping"], mol.n_active_sos) <= 8:
+            direct = check_given_hamiltonian(mol, solver, case, "mol")
+            labels.add("given-hamiltonian-" + ("fock-direct" if direct else "encoded"))
         nontrivial = any(t != 0.0 for t in theta) and not H.is_basis_state(psi)
-        return nontrivial, case_labels(case, theta, psi) | {f"qubits={n}"}
+        return nontrivial, labels
 
     # one search per ansatz group, so that every built-in ansatz is reached in every run (Hypothesis' choice among
     # 13 names with ~18 examples per shard would leave some of them out)
@@ -855,3 +922,55 @@ def history(ctx):
 
     ctx.search("history_qham", history_cases(False), body, frac=0.7)
     ctx.search("history_mol", history_cases(True), body, frac=0.3, exclusions={SIG_ZERO: is_zero_ucc})
+
+
+# ------------------------------------------------------------------------------------------------ part 7: penalty terms, re-builds
+
+@st.composite
+def penalty_cases(draw):
+    nm = draw(st.sampled_from(["UCCSD", "HEA", "QCC", "circuit", "ILC", "UpCCGSD", "QMF"]))
+    c = draw(mol_solver_cases(names=[nm], allow_ref=False, allow_proj=False, allow_penalty=False, big=draw(st.integers(0, 4)) == 0,
+                              mappings=["JW", "jw", "scbk", "BK", "JKMN", "jw", "bk", "scBK", "jkmn"],
+                              mol=H.molecules(max_active=3 if nm in ("QCC", "ILC") else 4, refs=("rhf", "rohf"))))
+    c["utd"] = draw(st.sampled_from([True, True, False]))
+    info = H.active_info(c["mol"])
+    ne, sz = info["na"] + info["nb"], (info["na"] - info["nb"]) / 2
+    pen = {}
+    kinds = draw(st.sampled_from([["Sz"], ["S^2"], ["Sz", "S^2"], ["N", "Sz"], ["N", "Sz", "S^2"], ["N"], []]))
+    for k in kinds:
+        val = {"N": ne, "Sz": sz, "S^2": sz * (sz + 1)}[k]
+        pen[k] = [draw(st.sampled_from([2.0, 0.5, 1.5, 10.0])), draw(st.sampled_from([val, val + 1, 0, 0.75]))]
+    c["penalty"] = pen or None
+    # further calls of build() on the same solver, each after re-configuring what build() picks up
+    c["rebuilds"] = [draw(st.sampled_from(["backend_options", "initial_var_params", "nothing"])) for _ in range(draw(st.integers(0, 2)))]
+    return c
+
+
+@part("penalty", quick=56, thorough=1600)
+def penalty(ctx):
+    def body(case):
+        mol, solver = build_mol_solver(ctx, case)
+        theta = H.theta_vector(case["theta"], solver.ansatz.n_var_params)
+        direct = check_given_hamiltonian(mol, solver, case, "penalty", theta)
+        psi, n = solver_state(solver)
+        labels = case_labels(case, theta, psi) | {"given-hamiltonian-" + ("fock-direct" if direct else "encoded")}
+        for k in (case.get("penalty") or {}):
+            labels.add("penalty=" + k)
+        if case.get("penalty") and effective_utd(case) and any(k in case["penalty"] for k in ("Sz", "S^2")):
+            labels.add("spin-penalty-with-up_then_down")
+        for i, what in enumerate(case["rebuilds"]):
+            if what == "backend_options":
+                solver.backend_options = {"target": "cirq", "n_shots": None, "noise_model": None}
+            elif what == "initial_var_params":
+                solver.initial_var_params = np.array(theta, dtype=float) if len(theta) else solver.initial_var_params
+            ctx.np_seed(case)
+            solver.build()
+            th = H.theta_vector(case["theta"], solver.ansatz.n_var_params)
+            check_given_hamiltonian(mol, solver, case, "penalty-rebuild", th)       # after build() number i + 2
+            labels.add(f"rebuild:{what}")
+            labels.add(f"builds={i + 2}")
+        if H.is_basis_state(psi):
+            labels.add("basis-state")
+        return bool(case.get("penalty")), labels        # the Hamiltonian comparison does not depend on the state
+
+    ctx.search("penalty", penalty_cases(), body, exclusions={SIG_ZERO: is_zero_ucc})
